@@ -86,9 +86,26 @@ def gen_hist(rng, maxops=8):
     return fs0, ops
 
 
+def gen_vanish(rng):
+    """a temporary file disappears, the writer is closed (discard), more files are opened, then finalisation"""
+    fs0, _ = gen_hist(rng, 1)
+    ops = []
+    names = rng.sample(POOL, min(len(POOL), rng.randint(2, 4)))
+    for nme in names:
+        ops.append(['open', nme, rng.choice(['w', 'w', 'a', 'w+']), 'first-%s' % nme])
+    ops.append(['vanish', rng.randrange(len(names))])
+    ops.append(['close'])
+    for _ in range(rng.randint(0, 3)):
+        ops.append(['open', gen_name(rng), rng.choice(MODES), 'second'])
+    return fs0, ops
+
+
 def generate(rng, tier):
     n = 140 if tier == 'quick' else 1500
     cases = []
+    for _ in range(60 if tier == 'quick' else 600):
+        fs0, ops = gen_vanish(rng)
+        cases.append({'kind': 'hist', 'fs0': fs0, 'ops': ops, 'fin': [rng.choice(['write', 'write', 'close'])], 'tmp': rng.choice(['own', 'system'])})
     for i in range(n):
         fs0, ops = gen_hist(rng, 8 if tier == 'quick' else 12)
         tmpdir_mode = rng.choice(['own', 'own', 'system'])
@@ -267,6 +284,15 @@ def run_hist(inp):
             if op[0] == 'close':
                 all_tmps += [t for t, _, _ in w.open_files]
                 w.close()
+                outcomes.append('OK')
+                continue
+            if op[0] == 'vanish':
+                # fault: the temporary file of the i-th queued entry disappears
+                if op[1] < len(w.open_files):
+                    t = list(w.open_files)[op[1]][0]
+                    all_tmps.append(t)
+                    if os.path.exists(t):
+                        os.remove(t)
                 outcomes.append('OK')
                 continue
             _, name, mode, data = op
@@ -494,6 +520,8 @@ def emit(inp, out):
     for op in inp['ops']:
         if op[0] == 'close':
             ops.append('Close')
+        elif op[0] == 'vanish':
+            ops.append('(Vanish %s)' % natlit(op[1]))
         else:
             ops.append('Open %s %s %s' % (path_lit(name_to_path(op[1], table)), mode_lit(op[2]),
                                           strlit('' if op[2] == 'r' else op[3])))
